@@ -381,3 +381,10 @@ def _plain(net, kind, kw):
         return ops.run_calc(net, kind, kw), None
     except BaseException as e:  # noqa
         return None, e
+
+
+def _plain_call(fn):
+    try:
+        return fn(), None
+    except BaseException as e:  # noqa
+        return None, e
